@@ -168,6 +168,13 @@ func (o *seqOracle) onLockWrite(inst int, old, new *ckInfo, applied bool, res st
 				o.fail("C04", "leaf-timestamp-after-head", "leaf %d timestamp %d later than tree head %d", idx, l.TS, new.TS)
 			}
 		}
+		// … and no EARLIER leaf is later than the new tree head either (a head re-signed with an older time)
+		for i, l := range base.leaves {
+			if int64(l.TS) > new.TS {
+				o.fail("C04", "leaf-timestamp-after-head", "leaf %d timestamp %d later than the tree head %d committed for size %d", i, l.TS, new.TS, new.N)
+				break
+			}
+		}
 		o.checkBijection(in, base.ck.N, add, new)
 	}
 	o.lockHist = append(o.lockHist, rec)
